@@ -44,7 +44,7 @@ func TestMain(m *testing.M) {
 	for _, s := range []string{"pkcs8pem", "pkcs8pem_pwd", "pubpem", "pkix", "hexpriv", "hexpub", "compress", "sigder", "cipherasn1"} {
 		R.Require(s+"/lz_d", s+"/lz_x", s+"/lz_y")
 	}
-	R.Require("hex_odd", "pwd_wrong", "X509KeyPair/match", "X509KeyPair/mismatch", "GMX509KeyPairs/match", "GMX509KeyPairs/mismatch", "GMX509KeyPairsSingle/match", "GMX509KeyPairsSingle/mismatch", "LoadX509KeyPair/match", "LoadGMX509KeyPair/match", "LoadGMX509KeyPairs/match")
+	R.Require("hex_odd", "pwd_wrong", "mismatch_negated_key", "X509KeyPair/match", "X509KeyPair/mismatch", "GMX509KeyPairs/match", "GMX509KeyPairs/mismatch", "GMX509KeyPairsSingle/match", "GMX509KeyPairsSingle/mismatch", "LoadX509KeyPair/match", "LoadGMX509KeyPair/match", "LoadGMX509KeyPairs/match")
 	hx.Main(m, R)
 }
 
@@ -542,6 +542,12 @@ func TestC14_Loaders(t *testing.T) {
 				keyPEM, wantKey = sm2KeyPEM(t, k1), k1.D
 			case "other_same_type":
 				keyPEM = sm2KeyPEM(t, k2)
+				if rapid.Bool().Draw(t, "negated") {
+					// the negated key n-d: public point (X, p-Y) shares the X coordinate with the certificate
+					nd := new(big.Int).Sub(cv.N, k1.D)
+					keyPEM = sm2KeyPEM(t, gen.Key{D: nd, Pub: cv.Neg(k1.Pub)})
+					R.Class("mismatch_negated_key")
+				}
 			default:
 				keyPEM = rapid.SampledFrom([][]byte{rsaKeyPEM(0, false), ecKeyPEM(0), rsaKeyPEM(1, true)}).Draw(t, "otherkey")
 			}
@@ -562,6 +568,17 @@ func TestC14_Loaders(t *testing.T) {
 				keyPEM, wantKey = ecKeyPEM(0), ecdsaKeys[0].D
 			case "other_same_type":
 				keyPEM = ecKeyPEM(1)
+				if rapid.Bool().Draw(t, "negated") {
+					nk := &ecdsa.PrivateKey{D: new(big.Int).Sub(elliptic.P256().Params().N, ecdsaKeys[0].D)}
+					nk.Curve = elliptic.P256()
+					nk.X, nk.Y = new(big.Int).Set(ecdsaKeys[0].X), new(big.Int).Sub(elliptic.P256().Params().P, ecdsaKeys[0].Y)
+					b, err := stdx509.MarshalPKCS8PrivateKey(nk)
+					if err != nil {
+						t.Fatalf("marshal negated key: %v", err)
+					}
+					keyPEM = pemBlock("PRIVATE KEY", b)
+					R.Class("mismatch_negated_key")
+				}
 			default:
 				keyPEM = rapid.SampledFrom([][]byte{sm2KeyPEM(t, k1), rsaKeyPEM(0, false)}).Draw(t, "otherkey")
 			}
